@@ -32,6 +32,7 @@ func runC13(c *Ctx) {
 	c.Rule("C13.R5", "certificate selection order: ready -> SNI -> first ALPN -> first ready", 5)
 	c.Rule("C13.R6", "a server name selects a context only by whole-name or label-boundary comparison, after lower-casing", 3)
 	defer c13NameMatching(c)
+	defer c13FreshPool(c)
 	c.NotDecided = append(c.NotDecided, "the handshake itself (forked crypto/tls, treated as reference)", "the trust matrix over concrete certificates", "MatchedServerName wildcard semantics on concrete names")
 
 	pkg := "pkg/mtls"
